@@ -388,7 +388,13 @@ class Sim:
                         for key, val in fresh.items():
                             rows[name][key] = val
                     fresh = rows[name]
-                m.set_market_status(MarketStatus(ts.to_pydatetime(), fresh), price_row)
+                stamp = ts.to_pydatetime()
+                if self.scenario.get("opts", {}).get("direct_stamp_offset_s"):
+                    # the caller stamps the statuses it hands over with its own clock (a few seconds off the data's index)
+                    from datetime import timedelta as _td
+
+                    stamp = stamp + _td(seconds=int(self.scenario["opts"]["direct_stamp_offset_s"]))
+                m.set_market_status(MarketStatus(stamp, fresh), price_row)
             if first:
                 st.initialize()
                 first = False
